@@ -295,6 +295,15 @@ def run(ctx):
         W.refused_leaves_no_trace(ctx, s, r, "c02")
     mid_tick_reconfig(ctx, rng)
     arrival_race(ctx, rng)
+    # delivery also depends on the simulated level staying in the protocol range, which is computed from the SENDER's power and the
+    # burst's attenuation (outside the range nothing is sent: C13) - sessions with SETPOWER / FAKE_RSSI differing between the two
+    # sides, judged on what each peer receives (generator and oracle shared with C10)
+    from . import C10 as _C10
+    _bursts = _C10.gen_bursts(ctx.seed)
+    _gi = {tuple(b[0]): (b[1], b[2], b[3]) for b in _bursts}
+    eff = [_C10.make_script(rng, _bursts) for _ in range(40 if ctx.tier == "quick" else 1500)]
+    for s, r in zip(eff, SC.run_scripts(ctx, "level-session", eff)):
+        _C10.oracle(ctx, s, r, _gi)
     ctx.sample(dict(trx_defs=scripts[0][0], ops=[SC.describe(o) for o in scripts[0][1][:12]]))
     ctx.count("operations", sum(len(s[1]) for s in scripts))
     ctx.count("transceivers", sum(2 + len(s[0]) for s in scripts))
